@@ -21,6 +21,11 @@ def run(tier):
     r = tlc.model_check('ctl', 'CtlGen', 'CtlGen_mc.cfg', timeout=1800, coverage=False)
     rep.add_tlc(r, 'CtlGen_mc')
     rep.model_violation(r, 'CtlGen_mc')
+    # vacuity guard: the walk as it was before the repair (directives deleted / added beyond the limit) must break the tiling
+    rn = tlc.model_check('ctl', 'CtlGen', 'CtlGen_neg.cfg', timeout=900, coverage=False)
+    rep.add_tlc(rn, 'CtlGen_neg(expected violation)')
+    if 'TilesRange' not in rn.violated:
+        raise MachineryError('CtlGen_neg: the unrepaired FindTerminal no longer violates TilesRange (vacuous invariant?)')
     # (B) binding
     nft, nout = (3000, 40) if tier == 'quick' else (60000, 600)
     with mp.get_context('fork').Pool(16) as pool:
